@@ -19,7 +19,7 @@ RULE = (
     "viscosity-bound regimes under an arbitrary L history (also entered through a "
     "get_regime callback), (iii) M*=0 under an arbitrary L history in the dislocation "
     "regimes (sliding threshold 0 or below every initial fraction). Rejection cases: all "
-    "regime ordinals -2..10 x phase ordinals 0..3 x fabric ordinals 0..7 at solver level "
+    "regime ordinals -2..10 x phase ordinals -2..3 x fabric ordinals -7..7 at solver level "
     "(enumerated exhaustively per generated texture), and Mineral-level updates with an "
     "unsupported regime (constructor, callback mid-interval) or a velocity-gradient "
     "callable that raises mid-interval, after 0..3 successful updates. Non-trivial: "
@@ -131,7 +131,7 @@ def check_ordinals(case):
         raise Skip("zero strain rate")
     n = len(x["A"])
     checked = 0
-    for regime, phase, fabric in itertools.product(range(-2, 11), range(0, 4), range(0, 8)):
+    for regime, phase, fabric in itertools.product(range(-2, 11), range(-2, 4), range(-7, 8)):
         kwargs = dict(
             regime=regime,
             phase=phase,
@@ -186,6 +186,7 @@ def reject_case():
         {
             "how": st.sampled_from(["ctor_regime", "callback_regime", "velgrad_raises", "bad_fabric", "bad_phase", "bad_phase_unlisted"]),
             "bad_phase": st.sampled_from([2, 3, 7, -1, 100]),
+            "bad_fabric": st.sampled_from(["mismatch", "mismatch", -1, -2, -6, -7, 6, 7, 100]),
             "bad_regime": st.sampled_from([2, 3, 5, -1, 8, 99]),
             "min": hist.mineral_spec(2, 20, regimes=(4, 6)),
             "par": hist.param_spec(),
@@ -231,7 +232,10 @@ def check_rejection(case):
             return flow.get_velocity_gradient(t, x)
 
     elif how == "bad_fabric":
-        mineral.fabric = 5 if phase == 0 else 0
+        # a valid fabric of the other phase, or an ordinal outside the enumeration (negative
+        # ordinals would wrap around as array indices)
+        bf = case.get("bad_fabric", "mismatch")
+        mineral.fabric = (5 if phase == 0 else 0) if bf == "mismatch" else bf
     elif how == "bad_phase":
         mineral.phase = 3
         params = dict(params, phase_assemblage=(3,), phase_fractions=(1.0,))
